@@ -257,8 +257,12 @@ NextLine(r) ==
       \* the reason of the error item (division by zero, unassigned variable, Z/X read, wrong number / order of
       \* outputs, the driver's own error) is predicted too; no listed property fixes it, so a difference is a note
       \* (item.why, owned by none) and the run is followed on
-      AfterError(it1, lastIn, why) ==
-        /\ its' = [its EXCEPT ![r.it].it = it1, ![r.it].lastIn = lastIn, ![r.it].posterr = TRUE, ![r.it].rng = rf.st,
+      \* (evalErr: the error arose while the row was being EVALUATED - where the iteration goes on from there the properties do
+      \* not say, hence the tolerance of PostErrTolerated.  An error that arose AFTER the row's exchange with the driver - the
+      \* driver's own error, a deviating answer, a virtual signal that cannot be computed over the answer - leaves the program where
+      \* every reading puts it: behind that row; what follows is compared like any other row)
+      AfterError(it1, lastIn, why, evalErr) ==
+        /\ its' = [its EXCEPT ![r.it].it = it1, ![r.it].lastIn = lastIn, ![r.it].posterr = (@ \/ evalErr), ![r.it].rng = rf.st,
                               ![r.it].dyn = Append(@, [k |-> "other"])]
         /\ IF "why" \in DOMAIN r.item /\ r.item.why # why
            THEN /\ PrintT(<<"DIAG", run, l, "item.why">>) /\ diag' = diag \cup {<<run, l, "item.why">>}
@@ -283,7 +287,7 @@ NextLine(r) ==
        ELSE IF c.pos # Len(r.rng) THEN FlagT("rng.tape")
        ELSE IF r.item.k # "err" \/ r.calls # <<>> THEN FlagRow("item.kind", ItemViewAt(r.item.line))
        ELSE IF r.item.class # "runtime" THEN FlagT("item.class")
-       ELSE AfterError(c.it, e.lastIn, c.err)
+       ELSE AfterError(c.it, e.lastIn, c.err, TRUE)
   ELSE \* a driver call is due
        IF r.calls = <<>> THEN FlagRow("item.kind", [k |-> "odd"])
        ELSE IF r.calls[1].kind # c.call.kind THEN FlagRow("call.kind", ItemViewAt(c.row.line))
@@ -304,7 +308,7 @@ NextLine(r) ==
              ELSE IF p.k = "err" THEN
                   IF r.item.class # p.class THEN FlagT("item.class")
                   ELSE IF p.class = "driver" /\ r.item.id # p.id THEN FlagT("fault.identity")
-                  ELSE AfterError(ret.it, r.calls[1].inputs, p.why)
+                  ELSE AfterError(ret.it, r.calls[1].inputs, p.why, FALSE)
              ELSE \* a row
                   LET code == CompareRow(e, c, ret, r)
                   IN  IF code # "ok" THEN FlagRow(code, RowView(r.item.line - ret.item.line))
